@@ -158,6 +158,43 @@ def oracle_kind(kind):
     return f
 
 
+# ---- by construction: scripts in which NOTHING is a comment although a comment marker character ends a line ------------
+# (a `#` is a comment opener only when a blank follows it; `-` + line break + `-` and `/` + line break + `*` are operators)
+def _squeeze(t):
+    return re.sub(r'\s+', ' ', t).strip()
+
+
+EOL_MARKER_CASES = [
+    # text, fragment of the squeezed result under: strip_comments / keyword_case=upper / identifier_case=upper
+    ('#\n# cleanup\n#\ndelete from t where a = 1;\nselect 2;\n',
+     'delete from t where a = 1; select 2;', 'DELETE FROM t WHERE a = 1;', 'delete from T where A = 1;'),
+    ('select 5 #\n  3 as x\nfrom t;', '3 as x from t;', '3 AS x FROM t;', '3 as X from T;'),
+    ('select 5 #\r\n  3 as x\r\nfrom t;', '3 as x from t;', '3 AS x FROM t;', '3 as X from T;'),
+    ('select 1; #\rselect 2;\rselect 3;', 'select 2; select 3;', 'SELECT 2; SELECT 3;', 'select 2; select 3;'),
+    ('select 5 -\n- 3 as x\nfrom t;', '3 as x from t;', '3 AS x FROM t;', '3 as X from T;'),
+    ('select 5 /\n* 3 as x\nfrom t;', '3 as x from t;', '3 AS x FROM t;', '3 as X from T;'),
+    ('select a#\nfrom t where b = 1;', 'from t where b = 1;', 'FROM t WHERE b = 1;', 'from T where B = 1;'),
+]
+
+
+def eol_marker_failures():
+    import sqlparse
+    out = []
+    for text, f_sc, f_kw, f_id in EOL_MARKER_CASES:
+        for opts, frag in (({'strip_comments': True}, f_sc), ({'keyword_case': 'upper'}, f_kw),
+                           ({'identifier_case': 'upper'}, f_id), ({'strip_comments': True, 'reindent': True}, f_sc)):
+            try:
+                res = sqlparse.format(text, **opts)
+            except Exception as e:  # noqa
+                res = 'exception ' + type(e).__name__
+            if frag not in _squeeze(res):
+                out.append({'input': [ord(c) for c in text], 'kind': 'code-after-eol-marker-lost', 'options': opts,
+                            'observed': 'format(%r, %r) = %r: the code after a comment-marker character that ends a line '
+                                        'is no comment; expected to find %r' % (text, opts, res[:200], frag)})
+                break
+    return out
+
+
 def sc_texts(ctx, n):
     out, dist = [], collections.Counter()
     cases = gens_sc.every_position_cases()
@@ -185,7 +222,7 @@ def search_strings():
 def run(ctx):
     texts, dist = sc_texts(ctx, ctx.n(4000, 40000))
     texts = common.corpus('stripcomments') + texts
-    res = {'disagreements': [], 'failures': []}
+    res = {'disagreements': [], 'failures': eol_marker_failures()[:3]}
     dis, dumps = common.corr_stage('stripcomments', texts, isc.stripcomments_dump, 'stripcomments')
     res['disagreements'] += dis
     strs = search_strings()
@@ -264,6 +301,9 @@ KNOWN_WITNESSES = ['-- a\n-- b\n', 'select /* c */ /*+ h */ a from t', 'select f
 
 
 def search(ctx, hints):
+    fs = eol_marker_failures()
+    if fs:
+        return {'failures': fs[:1], 'tried': len(EOL_MARKER_CASES)}
     return common.generic_search(ctx, hints, oracle, gen=lambda r: gens_sc.sc_text(r)[0],
                                  extra_inputs=KNOWN_WITNESSES)
 
@@ -272,12 +312,18 @@ def shrink(f):
     if not f or 'input' not in f:
         return f
     s = ''.join(map(chr, f['input']))
+    if f.get('kind') == 'code-after-eol-marker-lost':
+        return f
     orc = oracle_kind(f['kind']) if f.get('kind') in KINDS else oracle
     _, best = common.shrink_text(s, orc)
     return best or f
 
 
 def replay(payload):
+    f = payload.get('failure') or {}
+    if f.get('kind') == 'code-after-eol-marker-lost':
+        again = [g for g in eol_marker_failures() if g['input'] == f.get('input')]
+        return {'fails': bool(again), 'observed': again[0] if again else None}
     return common.replay_with(oracle, payload)
 
 
